@@ -32,6 +32,17 @@ CHECKS.update({
    "Three emitters (original, clone, directly-fed twin): seeded history, seeded split point, observations of the original (state, listings, target buffer) interleaved with operations on the clone, Append under exact/one-short/far-short/ample/nil capacities; refusal must be atomic, success must make original and twin agree on bytes, length, pc, flags, labels, both listings, Finalize outcome and finalized bytes.",
    "Finalize/listings are not requested from the clone itself; byte images are not compared between a failed and the next successful Finalize (C06 allows any subset of operands to be patched). Sampled histories."),
 })
+CHECKS.update({
+ "C07": ("exploration", "4 C07",
+   "Seeded straight-line emitter histories (every immediate method under right and wrong tracked widths, REP/SEP/Assume* with arbitrary masks, four initial width assumptions) are checked against an independent width tracker (refused exactly when sizes disagree, refusal changes nothing) and then executed on both interpreters over simulated write-protected memory, with each mid-program Assume* injected as an external flag change at that instruction boundary; the PC before every Step must be the assembler's instruction start, and final M/X must equal the tracked widths.",
+   "Thinnest of the claimed properties: apart from refusal events and the placement of external width changes there is no fault or schedule in it (DESIGN §4 C07). Operands are kept away from the unclaimed C08 defect region. Sampled programs."),
+ "C10": ("exploration", "4 C10",
+   "The simulator plays the client of the io.Reader/io.Writer streams: seeded histories of opens/reads/writes over overlapping windows with chunk sizes at, one before and beyond the window end, through raw calls, io.ReadFull, io.ReadAll, io.CopyN and bufio; every underlying Read/Write call is checked against a private image copy with per-stream windows (EOF only at the window end, no silent partial write, writes that fit must succeed, image equal to the model after every call, low-half streams always fail and change nothing).",
+   "Banks $00-$7F inside the image only. Known finding D2 (last byte of each bank unreachable, pinned by a baseline test) is relaxed narrowly while its witness still fails. Sampled histories."),
+ "C13": ("exploration", "4 C13",
+   "Seeded histories of Attach (overlapping, nested, re-attached, top-of-space, mis-aligned), EaRead/EaWrite at range edges and in holes, and EaDump over every alignment across devices and holes, on a fresh bus.Bus with simulated devices that record the address they receive; checked op by op against an owner table: exactly one call on the most recently attached device with the full address, holes panic without touching a device, rejected Attach changes nothing, EaDump count/content/untouched-hole positions/guard bytes and every device call made on its behalf.",
+   "24-bit addresses, non-empty ranges. Sampled histories."),
+})
 PENDING = {p: "check under construction in this round (planned as claimed in DESIGN.md §4 "+p+"); not claimed until its world exists" for p in ["C06","C07","C10","C12","C13","C14","C15","C16","C18"]}
 
 def main():
